@@ -164,6 +164,18 @@ CLAIMED = {
         technique="field-write enumeration + origin-expression provenance over MIR + type-directed coverage",
         design_ref="DESIGN.md section 4 C35",
     ),
+    "C03": dict(
+        level="other",
+        text="Vocabulary and operand-grouping clauses of expression round-tripping: the printer's five infix operator spellings composed with the lexer's operator tags and parse_infix's arms is the identity; PrefixOperator::Minus likewise (Plus prints nothing); the five function names composed with the keyword arms of parse_expression_identifier is the identity; pi / i / %name spellings agree; the operand printer wraps nested infix expressions and two-part complex numbers in parentheses, and the prefix arm wraps operands that themselves start with a sign, matching the parser's contract that exactly one prefix operator is applied to an atom before the infix loop. Number formatting and evaluation are not decided.",
+        technique="syntax-tree table extraction (printer match arms, lexer combinators, parser match arms) and table composition; emission-sequence shape checks",
+        design_ref="DESIGN.md section 4 C03",
+    ),
+    "C04": dict(
+        level="other",
+        text="Placeholder-error discipline of serialization: ToQuilError::Unresolved{Qubit,Label}Placeholder is constructed only in the Qubit / Target writers under (variant is Placeholder) and (fall_back_to_debug is false); at all 144 writer-to-writer call sites the fall_back_to_debug argument is the caller's own parameter (or the entry point is selected by it); no writer formats a value whose type can hold a Qubit/Target through Debug/Display or serializes it through to_quil()/to_quil_or_debug(); to_quil passes false and propagates, to_quil_or_debug passes true. Hence to_quil fails with a placeholder error only by reaching a placeholder and the debug serializer cannot fail on one. Text/parse agreement is decided under C02/C07; DELAY/CALL ambiguities and program equivalence are not decided.",
+        technique="who-may-construct rule with control dependence; argument provenance over MIR origin expressions at resolved call sites; type-containment-directed formatting check",
+        design_ref="DESIGN.md section 4 C04",
+    ),
     "C05": dict(
         level="other",
         text="Static rules over the parse-reachable function set: no value-changing numeric cast and no undischarged overflow assert may exist there; every Token::Float construction is dominated by the finite side of is_finite on the same value; lexical Overflow/Underflow map to nom::Err::Failure; lexical float options must not be lossy. Decides that literal-derived values cannot be wrapped/truncated/backtracked on any input; the digit-to-value computation inside `lexical` is trusted.",
